@@ -426,7 +426,7 @@ def gen_compress_consts(bdir):
 class C07(Prop):
     id = "C07"
     title = "calls reach the right function and respect visibility, whatever came before"
-    lean_modules = ["NV.C07.Props", "NV.C07.Witness", "NV.C07.OracleTests", "NV.C07.LemmasCompress", "NV.C07.Tie", "NV.C07.LemmasBinary", "NV.C07.LemmasBuild3", "NV.C07.LemmasBinary2"]
+    lean_modules = ["NV.C07.Props", "NV.C07.Witness", "NV.C07.OracleTests", "NV.C07.LemmasCompress", "NV.C07.Tie", "NV.C07.LemmasBinary", "NV.C07.LemmasBuild3", "NV.C07.LemmasBinary2", "NV.C07.LemmasArgs"]
     theorems = ["NV.C07.visibility_table", "NV.C07.visibility_any_flags", "NV.C07.visibility_lifted",
                 "NV.C07.driver_origins_never_refused", "NV.C07.bsearch_correct", "NV.C07.find_function_correct",
                 "NV.C07.find_offsets_are_path_sums", "NV.C07.cache_transparent_step", "NV.C07.cache_transparent",
@@ -438,7 +438,8 @@ class C07(Prop):
                 "NV.C07.name_masks_are_source", "NV.C07.cmp_marker_is_byte_max",
                 "NV.C07.permute_slot_entry", "NV.C07.permute_ft_mem", "NV.C07.permute_keeps_rest", "NV.C07.sortIdx_isPerm",
                 "NV.C07.resort_slot_entry", "NV.C07.inversePerm_getElem", "NV.C07.built_fio_sorted",
-                "NV.C07.cmp_literals_are_source", "NV.C07.resort_sorted", "NV.C07.sortIdx_pairwise"]
+                "NV.C07.cmp_literals_are_source", "NV.C07.resort_sorted", "NV.C07.sortIdx_pairwise",
+                "NV.C07.setupVariables_length", "NV.C07.setupVariables_get", "NV.C07.setupVariables_is_spec"]
     witness_theorems = ["NV.C07.Witness.old_cache_not_transparent", "NV.C07.Witness.origin_stored_once_runs_static",
                         "NV.C07.Witness.old_compress_overflow_branch_loses_entries",
                         "NV.C07.Witness.temp_instead_of_inverse_misdispatches"]
@@ -463,12 +464,13 @@ class C07(Prop):
     design_ref = "5/C07"
     technique = ("Lean 4 proof (binary search + inherit recursion vs. reference resolver, cache invariant by induction over "
                  "histories, offset sums along inherit chains, round trip of the compressed runtime function table incl. its "
-                 "256-entry overflow branch) + translator: flag bits / origins / cache size / NAME_MASK / NAME_NO_CODE from a probe, "
+                 "256-entry overflow branch, permutation invariance of the re-sort after load_binary, argument normalisation) + translator: flag bits / origins / cache size / NAME_MASK / NAME_NO_CODE from a probe, "
                  "function_visible, the cache hash of apply_low and the flag tests of find_function from the clang AST, with "
                  "bridging lemmas + three-way correspondence real driver / model-BUILT tables and model-COMPRESSED tables vs the "
                  "dumped real ones / specification on the abstract graph")
     level_text = ("Lean 4 theorems about an executable model of src/apply.c (find_function, function_visible, the apply cache, "
-                  "apply_low, the call_origin protocol), src/frame.c (NAME_INHERITED chasing) and compress_function_tables / "
+                  "apply_low, the call_origin protocol), src/frame.c (NAME_INHERITED chasing, setup_variables), sort_function_table of "
+                  "lib/lpc/program/binaries.c (dispatch by slot unchanged by every permutation, table sorted) and compress_function_tables / "
                   "FIND_FUNC_ENTRY / find_func_entry (every slot read back from the compressed table is the uncompressed entry; "
                   "frames chased through compressed tables equal frames chased through uncompressed ones) for all program tables "
                   "satisfying decidable well-formedness predicates and all call histories; the predicates (wfFind, wfSlots, cmpWF) "
@@ -504,7 +506,9 @@ class C07(Prop):
                    "are covered only through the dumped result",
                    "simul_efun dispatch, efun / simul_efun function pointers, bind() and pointer arguments are not exercised; local "
                    "function pointers and functionals evaluated by another object, and the heart_beat origin, are",
-                   "varargs / argument count normalisation (setup_variables) is outside the model",
+                   "argument count normalisation (setup_variables: too few / exact / too many arguments from call_other, applies, "
+                   "function pointers) IS modelled and proved equal to the specification; true varargs functions "
+                   "(setup_varargs_variables, `mixed *rest...`), argument TYPES and pointer arguments (merge_arg_lists) are not",
                    "program deallocation and reuse of a program_t address while a cache entry still names it (the id test of the "
                    "hit path): cannot be exercised under ASan, whose quarantine never hands the address out again",
                    "find_function_by_name / ffbn_recurse / function_exists (second copy of the search)",
